@@ -1135,6 +1135,15 @@ class Action:
             value = self.expandEnvironmentalVariable(value, Eups.verbose)
             if value is None:
                 return
+        else:
+            # remove what setup added, i.e. the expanded value (if we can still expand it)
+            try:
+                expandedValue = self.expandEnvironmentalVariable(value, 0)
+            except RuntimeError:
+                expandedValue = None
+
+            if expandedValue is not None:
+                value = expandedValue
 
         if delim in value:
             if Eups.verbose > 1:
